@@ -47,7 +47,7 @@ def strategy_(draw, tier):
             nodes, edges = draw(gen.cyclic_digraphs(max_nodes=7 if big else 6, odd_names=False))
         else:
             nodes, edges = draw(gen.dags(2, 6 if big else 5, odd_names=False))
-        ren = {v: ch.pick([v, v + "1", "n_" + v, v.upper(), v + "." + v]) for v in nodes} if ch.coin(1, 3) else {v: v for v in nodes}
+        ren = {v: ch.pick([v, v + "1", "n_" + v, v.upper(), v + "." + v, "S" + v, "S", "s#" + v, "Start" + v]) for v in nodes} if ch.coin(1, 3) else {v: v for v in nodes}
         if len(set(ren.values())) != len(ren):
             ren = {v: v for v in nodes}
         edges = [(ren[u], ren[v]) for u, v in edges]
